@@ -68,6 +68,15 @@ class Lazy:
                 for e in ends:
                     self.index.append((combo, auth, e))
 
+        # ... and every way it can end *abruptly*: one injected I/O error (reset, broken pipe, failing
+        # shutdown, connect failure) at every socket call, or one postponed peer action (d <= 1)
+        fcombos = [(c,) for c in range(len(OPTIONS))] + [(0, 0), (9, 0), (0, 9), (4, 7), (10, 0), (0, 10)]
+        if tier == 'thorough':
+            fcombos += [c for c in itertools.product(range(len(OPTIONS)), repeat=2) if c not in fcombos]
+        for combo in fcombos:
+            for e in ('normal', 'client-close-after-resp1', 'upstream-closes-after-resp1'):
+                self.index.append((combo, False, e + '+faults'))
+
     def __len__(self):
         return len(self.index)
 
@@ -82,6 +91,8 @@ class Lazy:
 
     def __getitem__(self, k):
         combo, auth, e = self.index[k]
+        faulty = e.endswith('+faults')
+        e = e.replace('+faults', '')
         behs = [beh_for(i, OPTIONS[c]) for i, c in enumerate(combo)]
         klasses = [plugins.recorder('P%d' % i, b) for i, b in enumerate(behs)]
         fa = ['--threadless'] + (['--basic-auth', 'u:p'] if auth else [])
@@ -111,8 +122,9 @@ class Lazy:
             script = [('send', r1), ('wait_idle',), ('close',)]
             dns = {}
         return Scenario(self.name(k), fa, flags_opts={'plugins': klasses}, mode='local',
-                        clients=[dict(script=script)], origins=origins, dns=dns, net=net, kinds='', horizon=600,
-                        features={'n_plugins': len(combo), 'auth': auth, 'ending': e,
+                        clients=[dict(script=script)], origins=origins, dns=dns, net=net, kinds='AF' if faulty else '', horizon=600,
+                        features={'n_plugins': len(combo), 'auth': auth, 'ending': e + ('+faults' if faulty else ''),
+                                  '_bound': 1 if faulty else 0, '_faulty': faulty,
                                   'hooks': ','.join(sorted(set(OPTIONS[c][0] + ':' + OPTIONS[c][1] for c in combo if c))),
                                   '_behs': behs})
 
@@ -192,6 +204,12 @@ def check(w):
 
     first_complete = e != 'client-abort-mid-R1'
     authed = e != 'bad-credentials'
+    faulty = f.get('_faulty')
+    if faulty:
+        e = e.replace('+faults', '')
+        # an injected error may hit before the request was read: "completely received" is then what the
+        # chain itself witnessed (before_upstream_connection is the first hook of a complete request)
+        first_complete = bool(rounds(rec, 'before_upstream_connection'))
     # ---- 1. order and short-circuit, for every hook, in every round
     for hook in ('before_upstream_connection', 'handle_client_request', 'handle_upstream_chunk', 'on_access_log',
                  'resolve_dns', 'handle_client_data', 'on_upstream_connection_close'):
@@ -220,7 +238,8 @@ def check(w):
         bad('request_hooks_never_ran')
     if not authed and [x for x in rec if x[1] in ('before_upstream_connection', 'handle_client_request', 'resolve_dns')]:
         bad('request_hook_ran_for_unauthenticated_request')
-    if first_complete and authed:
+    deviated = any(w.choices)
+    if first_complete and authed and not (faulty and deviated):
         o1, tags1, who1 = chain_request(behs, 'before_upstream_connection', ())
         expect_connect = o1 == 'pass'
         dns_ip = None
@@ -298,7 +317,9 @@ def run(tier):
     lz = scenarios(tier)
     return netcheck.run(PROP, tier, lz, check, 0, None, det_every=211, flagsets=[],
                         rule='plugin programs: every list of 1..n recording plugins (n=2 quick, 3 thorough), each with one '
-                             'of 12 (hook, behaviour) options, every order, x 8 endings (+ auth on: good / bad credentials); '
+                             'of 12 (hook, behaviour) options, every order, x 8 endings (+ auth on: good / bad credentials); plus, for every single-plugin program and a set of '
+                             'two-plugin programs, every single injected socket error / postponed peer action (d <= 1) with the '
+                             'order, threading and exactly-once lifecycle rules as oracle; '
                              'one execution of the real executor each; reference interpreter of the documented chain as oracle')
 
 
